@@ -31,9 +31,10 @@ theorem datetime_marker_sites_pinned :
     Gen.datetimeMarkerDelegates ≠ [] ∧ Gen.datetimeLocalSets = [] := by
   decide
 
-/-- the lookup table of `_onoff_to_bool`, entries sorted by the translator (their order means nothing) -/
+/-- the lookup table of `_onoff_to_bool` as a set of keys: entries sorted and de-duplicated by the translator
+    (`0` / `False` and `1` / `True` are one key each) -/
 theorem onoff_table_pinned :
-    Gen.onoffTable = [("bool", "False", false), ("bool", "True", true), ("int", "0", false), ("int", "1", true),
+    Gen.onoffTable = [("int", "0", false), ("int", "1", true),
       ("str", "0", false), ("str", "1", true), ("str", "false", false), ("str", "true", true)] := by decide
 
 /-! ## 1. declarative typing rules (written from the property text) -/
